@@ -43,14 +43,16 @@ def confirm(patch, demo, wt):
     return r
 
 
-def do_import():
+def do_import(base='/tmp/seedwork', rename=None):
     wt = '/tmp/seedverify'
     if not os.path.exists(wt):
         sh(['git', '-C', '/repo', 'worktree', 'add', '--detach', wt, 'HEAD'])
     os.makedirs(SEEDED, exist_ok=True)
-    for d in sorted(glob.glob('/tmp/seedwork/C*/out/*')):
+    for d in sorted(glob.glob(base + '/C*/out/*')):
         pid = d.split('/')[3]
         k = os.path.basename(d)
+        if rename:
+            k = rename.get(k, k)
         name = pid + k
         patch, demo, notes = [os.path.join(d, f) for f in ('patch.diff', 'demo.py', 'notes.md')]
         if not (os.path.exists(patch) and os.path.exists(demo)):
@@ -110,6 +112,9 @@ def run(names):
 
 if __name__ == '__main__':
     if sys.argv[1] == 'import':
-        do_import()
+        if len(sys.argv) > 2:
+            do_import(sys.argv[2], {'a': 'c', 'b': 'd'})
+        else:
+            do_import()
     else:
         run(sys.argv[2:])
